@@ -242,7 +242,6 @@ fn ss_udp(cx: &mut Ctx, rng: &mut Rng, now: u64) {
     let psk = cfg.ref_server_psk();
     let users = cfg.ref_users();
     let mut last_pid = None;
-    let _g = super::UDP2022_LOCK.lock().unwrap_or_else(|e| e.into_inner());
     for k in 0..6 {
         let target = gen::random_addr(rng);
         let n = *rng.pick(&DGRAM_SIZES);
